@@ -6,17 +6,19 @@
 (* RaptorOps.  Total: a failing clause is added to errs as "C20.<clause>"  *)
 (* and the monitor re-synchronises on the logged state.  Three families of *)
 (* traces share the module: "worker" (master + worker + dispatchers),      *)
-(* "chain" (dispatchers alone), "sched" (scheduler hand-off).              *)
+(* "chain" (dispatchers alone), "sched" (scheduler hand-off), and "mpi"    *)
+(* (MPI worker: the map is the rank occupancy, a request's demand is its   *)
+(* number of ranks; the result must say success iff every rank succeeded). *)
 (***************************************************************************)
 EXTENDS RaptorOps, TLC, Json, IOUtils
 
 Batch  == JsonDeserialize(IOEnv.TRACE_FILE)
 Traces == Batch.traces
 
-VARIABLES tid, l, co, gp, held, nput, nback, mvis, tow, disp,
+VARIABLES tid, l, co, gp, held, nput, nback, mvis, tow, disp, rres,
           sreg, sfw, sloc, sfail, sarr, errs, fin
 
-vars == <<tid, l, co, gp, held, nput, nback, mvis, tow, disp,
+vars == <<tid, l, co, gp, held, nput, nback, mvis, tow, disp, rres,
           sreg, sfw, sloc, sfail, sarr, errs, fin>>
 
 T         == Traces[tid]
@@ -37,7 +39,7 @@ Init ==
   /\ co = ZeroCores /\ gp = ZeroGpus
   /\ held  = [u \in Uids |-> NoSlots]
   /\ nput  = [u \in Uids |-> 0] /\ nback = [u \in Uids |-> 0] /\ mvis = [u \in Uids |-> 0]
-  /\ tow = {} /\ disp = {}
+  /\ tow = {} /\ disp = {} /\ rres = [u \in Uids |-> {}]
   /\ sreg = {} /\ sfw = [u \in Uids |-> 0] /\ sloc = {} /\ sfail = {} /\ sarr = {}
   /\ errs = {} /\ fin = FALSE
 
@@ -106,6 +108,10 @@ CallErrs(e) ==
   \cup E(e.a.out = e.b.out /\ e.a.err = e.b.err, "C20.RestoredStreams")
 
 (* ---- master + worker ------------------------------------------------------ *)
+\* mpi family: what the ranks of a request reported (rres also keeps what each
+\* rank's dispatcher returned, k = "call")
+RankRes(u) == {x \in rres[u] : x.k = "done"}
+
 WorkerStep(e) ==
   LET ok == MapSized(e)
       lo == IF ok THEN ToCo(e) ELSE co
@@ -128,15 +134,29 @@ WorkerStep(e) ==
                                    ELSE E(Count(e.to_worker, u) = 1 /\ Count(e.to_agent, u) = 0,
                                           "C20.Routing")) : u \in us}
                  \cup E(SeqSet(e.to_worker) \cup SeqSet(e.to_agent) \subseteq us, "C20.Routing")
-            /\ UNCHANGED <<held, nput, nback>>
+            /\ UNCHANGED <<held, nput, nback, rres>>
+       [] e.ev = "Submit" ->
+            \* mpi family: the request is put on the worker's queue directly
+            /\ tow' = tow \cup {e.uid} /\ disp' = disp \cup {e.uid}
+            /\ errs' = errs \cup e0 \cup same
+            /\ UNCHANGED <<held, nput, nback, mvis, rres>>
+       [] e.ev = "RankDone" ->
+            /\ rres' = [rres EXCEPT ![e.uid] = @ \cup {[rank |-> e.rank, ec |-> e.ec, k |-> "done"]}]
+            /\ errs' = errs \cup e0 \cup same
+                 \cup E(e.rank \in held[e.uid].cores, "C20.NoShare")
+                 \cup E(\A x \in RankRes(e.uid) : x.rank # e.rank, "C20.ResultOnce")
+                 \* the rank reports what its dispatcher returned
+                 \cup E(\A x \in rres[e.uid] : (x.k = "call" /\ x.rank = e.rank) => x.ec = e.ec,
+                        "C20.OutcomeRanks")
+            /\ UNCHANGED <<held, nput, nback, mvis, tow, disp>>
        [] e.ev = "Local" ->
             /\ errs' = errs \cup e0 \cup same
                  \cup E(e.seen /\ Rq(e.uid).mode = ExeMode, "C20.Routing")
-            /\ UNCHANGED <<held, nput, nback, mvis, tow, disp>>
+            /\ UNCHANGED <<held, nput, nback, mvis, tow, disp, rres>>
        [] e.ev = "Take" ->
             /\ errs' = errs \cup e0 \cup same
                  \cup E(Rq(e.uid).mode # ExeMode /\ e.uid \in tow, "C20.Routing")
-            /\ UNCHANGED <<held, nput, nback, mvis, tow, disp>>
+            /\ UNCHANGED <<held, nput, nback, mvis, tow, disp, rres>>
        [] e.ev = "Alloc" ->
             LET u  == e.uid
                 sc == SeqSet(e.sc) sg == SeqSet(e.sg)
@@ -154,7 +174,7 @@ WorkerStep(e) ==
                         /\ Len(e.sg) = Rq(u).g /\ Cardinality(sg) = Rq(u).g, "C20.AllocSize")
                  \cup (IF inr THEN E(lo = MarkCores(co, sc, 1) /\ lg = MarkGpus(gp, sg, 1),
                                     "C20.MapNotMarked") ELSE {})
-            /\ UNCHANGED <<nput, nback, mvis, tow, disp>>
+            /\ UNCHANGED <<nput, nback, mvis, tow, disp, rres>>
        [] e.ev = "Dealloc" ->
             LET u == e.uid h == held[u] IN
             /\ held' = [held EXCEPT ![u] = NoSlots]
@@ -163,14 +183,19 @@ WorkerStep(e) ==
                  \cup (IF h.cores \subseteq Core /\ h.gpus \subseteq Gpu
                        THEN E(lo = MarkCores(co, h.cores, 0) /\ lg = MarkGpus(gp, h.gpus, 0),
                               "C20.AllBack") ELSE {})
-            /\ UNCHANGED <<nput, nback, mvis, tow, disp>>
+            /\ UNCHANGED <<nput, nback, mvis, tow, disp, rres>>
        [] e.ev = "ResPut" ->
             LET u == e.uid IN
             /\ nput' = [nput EXCEPT ![u] = @ + 1]
             /\ errs' = errs \cup e0 \cup same
                  \cup E(nput[u] = 0, "C20.ResultOnce")
                  \cup E(held[u] = NoSlots, "C20.AllBack")
-            /\ UNCHANGED <<held, nback, mvis, tow, disp>>
+                 \cup (IF T.family = "mpi"
+                       THEN E(Cardinality(RankRes(u)) = Rq(u).c
+                              /\ ((e.ec = "0") <=> (\A x \in RankRes(u) : x.ec = "0")),
+                              "C20.OutcomeRanks")
+                       ELSE {})
+            /\ UNCHANGED <<held, nback, mvis, tow, disp, rres>>
        [] e.ev = "MResult" ->
             LET u == e.uid IN
             /\ nback' = [nback EXCEPT ![u] = @ + 1]
@@ -178,24 +203,31 @@ WorkerStep(e) ==
                  \cup E(nback[u] = 0, "C20.ResultOnce")
                  \cup E(u \in disp, "C20.ResultOnce")
                  \cup E(e.target = TargetOf(e.ec), "C20.TargetFromExit")
+                 \cup (IF T.family = "mpi"
+                       THEN E((e.target = "DONE") <=> (\A x \in RankRes(u) : x.ec = "0"),
+                              "C20.TargetFromExit")
+                       ELSE {})
                  \cup E(e.state = "AGENT_STAGING_OUTPUT_PENDING", "C20.ResultNotForwarded")
-            /\ UNCHANGED <<held, nput, mvis, tow, disp>>
+            /\ UNCHANGED <<held, nput, mvis, tow, disp, rres>>
        [] e.ev = "Call" ->
             /\ errs' = errs \cup e0 \cup same \cup CallErrs(e)
+            /\ rres' = IF T.family = "mpi"
+                       THEN [rres EXCEPT ![e.uid] = @ \cup {[rank |-> e.rank, ec |-> e.ret, k |-> "call"]}]
+                       ELSE rres
             /\ UNCHANGED <<held, nput, nback, mvis, tow, disp>>
        [] e.ev \in {"Poll", "Spawn", "Fin", "QPut", "Deliver", "WatcherDied"} ->
             /\ errs' = errs \cup e0 \cup same
-            /\ UNCHANGED <<held, nput, nback, mvis, tow, disp>>
+            /\ UNCHANGED <<held, nput, nback, mvis, tow, disp, rres>>
        [] e.ev = "End" ->
             /\ errs' = errs \cup e0 \cup same
                  \cup E(\A u \in Uids : held[u] = NoSlots, "C20.AllBack")
                  \cup E(AllZero(lo, lg) /\ e.npool = 0, "C20.AllBack")
                  \cup UNION {E(nput[u] >= 1, "C20.ResultLost") : u \in tow}
                  \cup UNION {E(nback[u] >= 1, "C20.ResultLost") : u \in disp}
-            /\ UNCHANGED <<held, nput, nback, mvis, tow, disp>>
+            /\ UNCHANGED <<held, nput, nback, mvis, tow, disp, rres>>
        [] OTHER ->
             /\ errs' = errs \cup {"X.UnknownEvent"}
-            /\ UNCHANGED <<held, nput, nback, mvis, tow, disp>>
+            /\ UNCHANGED <<held, nput, nback, mvis, tow, disp, rres>>
 
 Step ==
   /\ ~fin /\ l <= Len(Ev)
@@ -203,10 +235,10 @@ Step ==
   /\ LET e == Ev[l] IN
      IF IsSched(e)
      THEN /\ SchedStep(e)
-          /\ UNCHANGED <<co, gp, held, nput, nback, mvis, tow, disp>>
+          /\ UNCHANGED <<co, gp, held, nput, nback, mvis, tow, disp, rres>>
      ELSE IF T.family = "chain"
      THEN /\ errs' = errs \cup (IF e.ev = "Call" THEN CallErrs(e) ELSE {"X.UnknownEvent"})
-          /\ UNCHANGED <<co, gp, held, nput, nback, mvis, tow, disp, sreg, sfw, sloc, sfail, sarr>>
+          /\ UNCHANGED <<co, gp, held, nput, nback, mvis, tow, disp, rres, sreg, sfw, sloc, sfail, sarr>>
      ELSE /\ WorkerStep(e)
           /\ UNCHANGED <<sreg, sfw, sloc, sfail, sarr>>
   /\ UNCHANGED tid
@@ -215,7 +247,7 @@ Finish ==
   /\ ~fin /\ l > Len(Ev)
   /\ fin' = TRUE
   /\ PrintT(<<"RESULT", T.tid, errs>>)
-  /\ UNCHANGED <<tid, l, co, gp, held, nput, nback, mvis, tow, disp,
+  /\ UNCHANGED <<tid, l, co, gp, held, nput, nback, mvis, tow, disp, rres,
                  sreg, sfw, sloc, sfail, sarr, errs>>
 
 Next == Step \/ Finish
